@@ -19,3 +19,26 @@ package verifspec
 //@   hint return: use imulLimbs(x, y, x1, x0, y1, y0)
 //@   ensures hi * 4294967296 + lo == prod(x, y)
 //@   ensures hi >= 0 && hi <= 4294967295 && lo >= 0 && lo <= 4294967295
+
+// unicode.to (the override replaces the upstream binary search to avoid copying CaseRange values): for a table sorted
+// by range, a rune inside the range m is mapped by that range's delta for the requested case -- or, for the
+// UpperLower pseudo-delta, to the even/odd member of its pair counted from the start of the range --, and a rune in no
+// range is returned unchanged with found == false.  MaxCase == 3, MaxRune == 0x10FFFF, ReplacementChar == 0xFFFD.
+//@ func natives:unicode.to
+//@ property C13
+//@   word 32
+//@   requires forall(i, 0, len(caseRange), caseRange[i].Lo <= caseRange[i].Hi && caseRange[i].Hi <= 1114111)
+//@   requires forall2(i, j, 0 <= i && i < j && j < len(caseRange) ==> caseRange[i].Hi < caseRange[j].Lo)
+//@   requires r >= 0 && r <= 1114111
+//@   loop 1 invariant 0 <= lo && lo <= hi && hi <= len(caseRange)
+//@   loop 1 invariant forall(i, 0, lo, caseRange[i].Hi < r)
+//@   loop 1 invariant forall(i, hi, len(caseRange), r < caseRange[i].Lo)
+//@   loop 1 decreases hi - lo
+// (the ranges are disjoint, so the range found is the only one that contains r)
+//@   hint return: assert forall(q, 0, m, !(caseRange[q].Lo <= r && r <= caseRange[q].Hi))
+//@   hint return: assert forall(q, m + 1, len(caseRange), !(caseRange[q].Lo <= r && r <= caseRange[q].Hi))
+//@   ensures (_case < 0 || _case >= 3) ==> mappedRune == 65533 && !foundMapping
+//@   ensures _case >= 0 && _case < 3 ==> forall(m, 0, len(caseRange), caseRange[m].Lo <= r && r <= caseRange[m].Hi ==> foundMapping)
+//@   ensures _case >= 0 && _case < 3 ==> forall(m, 0, len(caseRange), caseRange[m].Lo <= r && r <= caseRange[m].Hi && caseRange[m].Delta[_case] <= 1114111 ==> mappedRune == r + caseRange[m].Delta[_case])
+//@   ensures _case >= 0 && _case < 3 ==> forall(m, 0, len(caseRange), caseRange[m].Lo <= r && r <= caseRange[m].Hi && caseRange[m].Delta[_case] > 1114111 ==> mappedRune == caseRange[m].Lo + (r - caseRange[m].Lo) - (r - caseRange[m].Lo) % 2 + _case % 2)
+//@   ensures !foundMapping && _case >= 0 && _case < 3 ==> mappedRune == r
